@@ -757,10 +757,16 @@ func (f For) byteCode(srcsel int, fl flags.Pass, cr compResult) bytecode.Type {
 		*cr.CS = append(*cr.CS, instr)
 	}
 
+	// a return in the body has to destroy the contexts of the enclosing loops too
+	ctxLo := ctxID
+	if fl.Data().InFor {
+		ctxLo = fl.Data().CtxLo
+	}
+
 	body := f.Body.byteCode(0, fl.Data().Pass(
 		flags.WithInFor(true),
 		flags.WithCtxID(ctxID+len(f.VarRefs.Elems)),
-		flags.WithCtxLo(ctxID),
+		flags.WithCtxLo(ctxLo),
 		flags.WithCtxHi(ctxID+len(f.VarRefs.Elems)-1),
 		flags.WithDiscard(discard)), cr)
 
